@@ -93,10 +93,52 @@ pub fn gen_range_cases(kind: &str, mid: &str, tier: Tier, rng: &mut Rng, stats: 
         }
         stats.bump("small_scope_keysets");
     }
+    // bounds that leave (or stay in) the trie at nodes of every fan-out class: for each boundary family, lower and
+    // upper bounds on a present byte, an absent byte between present ones, below the smallest and above the largest
+    for (name, ks) in boundary_keysets(rng, tier) {
+        if ks.len() > 300 || ks.is_empty() || ks.iter().any(|k| k.len() > 40) {
+            continue;
+        }
+        let vals = value_pattern(5, ks.len(), rng);
+        let ops = map_ops(&with_values(&ks, &vals));
+        let mut bounds: Vec<Vec<u8>> = vec![];
+        let sample: Vec<&Vec<u8>> = vec![&ks[0], &ks[ks.len() / 2], &ks[ks.len() - 1], rng.pick(&ks)];
+        for k in sample {
+            for i in 0..k.len() {
+                for d in [0u8, 1, 255, 2, 128] {
+                    let mut b = k[..=i].to_vec();
+                    b[i] = b[i].wrapping_add(d);
+                    bounds.push(b);
+                }
+            }
+        }
+        for b in [0u8, 1, 127, 128, 200, 254, 255] {
+            bounds.push(vec![b]);
+            bounds.push(vec![b'k', b]);
+        }
+        let bounds = sort_dedup(bounds);
+        let mut rs = vec![];
+        for b in &bounds {
+            for kind in 0..4u8 {
+                rs.push(vec![(kind, b.clone())]);
+            }
+        }
+        stats.add("ranges_boundary_families", rs.len() as u64);
+        stats.bump(&format!("bounds_on_{}", name.split('_').next().unwrap()));
+        for chunk in rs.chunks(200) {
+            cases.push(format!("{} {} ;{} {}", kind, fmt_ops(&ops), mid, chunk.iter().map(|c| fmt_calls(c)).collect::<Vec<_>>().join("/")));
+        }
+    }
     // deeper random key sets: sampled combinations + double settings
     let nrand = match tier { Tier::Quick => 120, Tier::Thorough => 2500, Tier::Wide => 500 };
     for i in 0..nrand {
-        let ks = if i % 5 == 0 { boundary_keysets(rng, tier).swap_remove(rng.below(40) as usize).1 } else { random_keyset(rng, 30, 7) };
+        let ks = if i % 5 == 0 {
+            let mut fams = boundary_keysets(rng, tier);
+            let j = rng.below(fams.len() as u64) as usize;
+            fams.swap_remove(j).1
+        } else {
+            random_keyset(rng, 30, 7)
+        };
         if ks.len() > 300 { continue; }
         let p = rng.below(NPATTERNS as u64) as usize;
         let vals = value_pattern(p, ks.len(), rng);
